@@ -50,17 +50,33 @@ func buildBatchArray(w *World, classes []string) (*Cont, error) {
 		if i == len(classes) {
 			return nil, nil
 		}
-		w.Serial++
-		mv := MakeSimple(Class(classes[i]), w.Serial)
+		// nested containers (plain, wrapped, composite) are created standalone and handed over, like a caller
+		// that deep-copies children into a new array; simple classes are plain values
+		mv, rv, err := w.newValue(Op{V: classes[i]}, nil)
+		if err != nil {
+			return nil, err
+		}
 		i++
 		model = append(model, mv)
-		return ToAtree(mv), nil
+		return rv, nil
 	})
 	if err != nil {
+		if _, ok := err.(*Violation); ok {
+			return nil, err
+		}
 		return nil, violf("NewArrayFromBatchData failed: %v", err)
 	}
 	c := &Cont{Elems: model, TypeID: 42, Arr: arr, VID: arr.ValueID(), SID: arr.SlabID()}
 	wrapWorld(w, c)
+	for _, mv := range model {
+		attach(mv, c)
+		if u, _ := Unwrap(mv); u != nil {
+			if ch, ok := u.(*Cont); ok {
+				// the handle used to build the child is not the parent's: re-obtain it through the parent
+				ch.Arr, ch.Map = nil, nil
+			}
+		}
+	}
 	return c, nil
 }
 
@@ -104,6 +120,21 @@ func c17Task(raw json.RawMessage) TaskResult {
 				return
 			}
 			for _, cl := range c17Classes {
+				rec(append(append([]string{}, cur...), cl))
+			}
+		}
+		rec(a.Prefix)
+	case "arr-streams-nested":
+		// all streams up to MaxLen over an alphabet with nested children: inlined arrays / maps, same-typed
+		// composite maps (compact form), wrapped children, children too large to inline, next to plain values
+		nested := []string{"t", "limA", "A:t", "Mc:t,u5", "s:A:h,h", "M:t"}
+		var rec func(cur []string)
+		rec = func(cur []string) {
+			runStream(a.T, cur, &res)
+			if len(cur) >= a.MaxLen || len(res.Viols) > 3 {
+				return
+			}
+			for _, cl := range nested {
 				rec(append(append([]string{}, cur...), cl))
 			}
 		}
@@ -681,7 +712,7 @@ func c17Negative(a c17Arg, res *TaskResult) {
 
 func init() {
 	RegisterCheck(&CheckDef{ID: "C17", Level: "model_checking", Run: func(r *Run) {
-		r.Rule = "exhaustive enumeration on the real bulk APIs: ALL element streams over {3-byte scalar, quarter-slab string, exactly-at-limit string, one-over-limit string} up to length 8 (thorough 10) through NewArrayFromBatchData; every length up to 120 (thorough 600) with uniform prefixes and all tail patterns of the last 4 (thorough 5) elements; NewMapFromBatchData from sources of every size up to 40 (thorough 120) and from every 3-key digest assignment (collision groups), plus unsorted / duplicate / zero-seed streams; CopyNonRefSimple offered <=> single slab of plain elements for every array/map of <= 3 elements over 7 element kinds, standalone and inlined, and after every single mutation of either side the other side's registers are byte-identical; ByteSliceToByteArray for every length 0..L and every estimated-size argument with round trip; every result is checked by content, the in-repo verifiers, the independent structure/size/round-trip/reachability oracles and CheckStorageHealth; states = distinct resulting slab structures"
+		r.Rule = "exhaustive enumeration on the real bulk APIs: ALL element streams over {3-byte scalar, quarter-slab string, exactly-at-limit string, one-over-limit string} up to length 8 (thorough 10) through NewArrayFromBatchData, and all streams up to length 6 (thorough 7) over {scalar, at-limit string, inlined array, composite map, wrapped standalone array, inlined map}; every length up to 120 (thorough 600) with uniform prefixes and all tail patterns of the last 4 (thorough 5) elements; NewMapFromBatchData from sources of every size up to 40 (thorough 120) and from every 3-key digest assignment (collision groups), plus unsorted / duplicate / zero-seed streams; CopyNonRefSimple offered <=> single slab of plain elements for every array/map of <= 3 elements over 7 element kinds, standalone and inlined, and after every single mutation of either side the other side's registers are byte-identical; ByteSliceToByteArray for every length 0..L and every estimated-size argument with round trip; every result is checked by content, the in-repo verifiers, the independent structure/size/round-trip/reachability oracles and CheckStorageHealth; states = distinct resulting slab structures"
 		r.Assumptions = []string{
 			"streams longer than the stated bounds (tens of thousands of elements) are outside the enumeration; the tail-pattern family is what decides the under-full last leaf and last index slab",
 		}
@@ -698,6 +729,17 @@ func init() {
 			}
 		}
 		r.RunTaskGroup("array streams (all, length<=max)", "c17", args)
+		args = nil
+		nl := 6
+		if r.Thorough() {
+			nl = 7
+		}
+		for _, a := range []string{"t", "limA", "A:t", "Mc:t,u5", "s:A:h,h", "M:t"} {
+			for _, b := range []string{"t", "limA", "A:t", "Mc:t,u5", "s:A:h,h", "M:t"} {
+				args = append(args, c17Arg{T: T, Mode: "arr-streams-nested", Prefix: []string{a, b}, MaxLen: nl})
+			}
+		}
+		r.RunTaskGroup("array streams with nested children (all, length<=max)", "c17", args)
 		shards := 16
 		args = nil
 		to, tail := 120, 4
